@@ -10,7 +10,7 @@ cp "$R/go.sum" "$V/engine/go.sum"
 if [ ! -x "$V/bin/rewrite" ] || [ "$V/rewrite/main.go" -nt "$V/bin/rewrite" ]; then
   (cd "$V/rewrite" && go build -o "$V/bin/rewrite" .)
 fi
-"$V/bin/rewrite" -repo "$R" -out "$out" -stubdir "$V/engine/stubs" -adddir "$V/engine/overlay" \
+"$V/bin/rewrite" -repo "$R" -out "$out" -exclude internal/io/signal -stubdir "$V/engine/stubs" -adddir "$V/engine/overlay" -adddir2 "$V/engine/overlay_controlled" \
   -hooks "$(tr '\n' ',' < "$V/engine/hooks.txt")" \
   -vos internal/config,internal/io/fs,internal/mapr,internal/ssh/client,internal/server/handlers,internal/io/prompt >"$out/rewrite.log" 2>&1 || { cat "$out/rewrite.log" >&2; exit 2; }
 (cd "$V/engine" && go build -tags verif -overlay "$out/overlay.json" -o "$out/verifc" ./cmd/verifc) || exit 2
@@ -19,12 +19,13 @@ python3 - "$out" "$V" "$R" <<'PY'
 import json,os,sys
 out,V,R=sys.argv[1:4]
 ov={}
-root=os.path.join(V,'engine','overlay')
-for d,_,fs in os.walk(root):
-    for f in fs:
-        if f.endswith('.go'):
-            p=os.path.join(d,f)
-            ov[os.path.join(R,os.path.relpath(p,root))]=p
+for sub in ('overlay','overlay_native'):
+    root=os.path.join(V,'engine',sub)
+    for d,_,fs in os.walk(root):
+        for f in fs:
+            if f.endswith('.go'):
+                p=os.path.join(d,f)
+                ov[os.path.join(R,os.path.relpath(p,root))]=p
 json.dump({"Replace":ov},open(os.path.join(out,'overlay-native.json'),'w'))
 PY
 (cd "$V/engine" && go build -tags verif -overlay "$out/overlay-native.json" -o "$out/verifn" ./cmd/verifn) || exit 2
